@@ -266,7 +266,7 @@ pub fn run(tier: Tier) -> i32 {
     #[allow(non_snake_case)]
     let INSTANTS: &[i64] = &instants;
     let mut run = Run::new("C06", tier, "exploration");
-    run.rule = "(i) every RFC 3339 offset -12:00..+14:00 in 15-minute steps x 12 instants x 0..9 fraction digits (+ Z / +00:00 / -00:00) through three constructors: rejected or exact instant; (ii) every in-model zone x every offset transition 1980-2060 x {t-3601,t-1,t,t+1,t+3599} + a lattice, through parse_from_rfc3339_with_timezone (UTC and local spelling) and (iii) both codecs with 0/3/6/9 fraction digits; non-trivial = distinct (zone, instant, digits) / distinct text".into();
+    run.rule = "(i) every RFC 3339 offset -12:00..+14:00 in 15-minute steps x 12 instants x 0..9 fraction digits (+ Z / +00:00 / -00:00) through three constructors: rejected or exact instant; (i') 27 malformed texts and 14 zone names that name no zone: error or preserved instant, never a panic; (ii) every in-model zone x every offset transition 1980-2060 x {t-3601,t-1,t,t+1,t+3599} + a lattice, through parse_from_rfc3339_with_timezone (UTC and local spelling), the chrono conversions, timezone::make_date_time_with_tz (city and full name, instant given at three offsets), make_date_time, the C API constructor from UTC date + time + zone with its date/time/zone getters, and (iii) both codecs with 0/3/6/9 fraction digits; non-trivial = distinct (zone, instant, digits) / distinct text".into();
     run.assume("chrono_tz offsets are the reference for each zone's local offset (trusted base)");
     run.assume("in-model zone = city name (text after the first '/') designates no zone with different rules under exact or region-prefixed resolution");
     crate::engine::quiet_panics();
@@ -299,6 +299,62 @@ pub fn run(tier: Tier) -> i32 {
         }
     });
     run.absorb(l);
+
+    // (i') texts outside RFC 3339 and zone names that name no zone: an error or, if accepted, the
+    // instant of the well-formed part; never a panic
+    let malformed = [
+        "", "2021", "2021-01-01", "2021-01-01T", "2021-01-01T00:00:00", "2021-01-01T00:00:00z", "2021-01-01 00:00:00Z", "2021-02-30T00:00:00Z", "2021-13-01T00:00:00Z",
+        "2021-01-01T24:00:00Z", "2021-01-01T00:60:00Z", "2021-01-01T00:00:00+24:00", "2021-01-01T00:00:00+00:60", "2021-01-01T00:00:00+0000", "2021-01-01T00:00:00+00", "2021-01-01T00:00:00.Z",
+        "2021-01-01T00:00:00,5Z", "-2021-01-01T00:00:00Z", "12021-01-01T00:00:00Z", "2021-01-01T00:00:00Z UTC", "2021-01-01T00:00:00\u{e9}Z", "2021-01-01T00:00:00+0\u{e9}:00", "\u{1f600}",
+        "2021-01-01T00:00:00.1234567890123Z", "0000-01-01T00:00:00Z", "9999-12-31T23:59:59+00:00", "2021-1-1T0:0:0Z",
+    ];
+    let bad_zones = ["", " ", "Nowhere", "New York", "new_york", "\u{e9}", "UTC+25", "/", "America/", "/New_York", "America/New_York/x", "GMT+99", "Etc/", "../UTC"];
+    for text in malformed {
+        run.stats.evals += 1;
+        run.stats.count("malformed-texts");
+        let ctors: Vec<(&str, Box<dyn Fn() -> Result<DT, String>>)> = vec![
+            ("parse_from_rfc3339", Box::new(|| DateTime::parse_from_rfc3339(text).map(|d| dt_from_lib(&d)))),
+            ("from_str", Box::new(|| DateTime::from_str(text).map(|d| dt_from_lib(&d)))),
+            ("with_timezone", Box::new(|| DateTime::parse_from_rfc3339_with_timezone(text, "New_York").map(|d| dt_from_lib(&d)))),
+            (
+                "make_datetime_from_iso",
+                Box::new(|| match Value::make_datetime_from_iso(text)? {
+                    Value::DateTime(d) => Ok(dt_from_lib(&d)),
+                    other => Err(format!("not a DateTime: {other:?}")),
+                }),
+            ),
+        ];
+        for (name, f) in ctors {
+            match guarded(|| f()) {
+                Err(p) => run.stats.fail(&format!("rfc3339-panic:{name}:malformed"), json!({"malformed": text}), format!("{text:?}: {p}")),
+                Ok(Err(_)) => run.stats.outcome("rejected"),
+                Ok(Ok(got)) => {
+                    // accepted although outside the model: if the reference can read it (range limits), the instant must agree
+                    if let Some(want) = rfc3339_instant(text) {
+                        if got.secs != want.0 || got.nanos != want.1 {
+                            run.stats.fail(&format!("rfc3339-instant:{name}:limits"), json!({"malformed": text}), format!("{text:?} denotes {}s, library gives {}s", want.0, got.secs));
+                        }
+                    }
+                    run.stats.outcome("accepted-outside-the-model");
+                }
+            }
+        }
+    }
+    for z in bad_zones {
+        run.stats.evals += 1;
+        run.stats.count("bad-zone-names");
+        let text = "2021-07-01T10:00:00Z";
+        match guarded(|| DateTime::parse_from_rfc3339_with_timezone(text, z).map(|d| dt_from_lib(&d))) {
+            Err(p) => run.stats.fail("with-timezone-panic:bad-zone", json!({"bad_zone": z}), format!("{z:?}: {p}")),
+            Ok(Err(_)) => run.stats.outcome("rejected"),
+            Ok(Ok(got)) => {
+                if got.secs != 1_625_133_600 {
+                    run.stats.fail("with-timezone:instant:bad-zone", json!({"bad_zone": z}), format!("zone name {z:?} accepted and the instant moved to {}", got.secs));
+                }
+                run.stats.outcome("accepted-outside-the-model");
+            }
+        }
+    }
 
     // (ii) + (iii)
     let all = in_model_zones();
@@ -379,6 +435,24 @@ pub fn run(tier: Tier) -> i32 {
 }
 
 pub fn replay(case: &J) -> Verdict {
+    if let Some(t) = case["malformed"].as_str() {
+        return match guarded(|| {
+            let _ = DateTime::parse_from_rfc3339(t);
+            let _ = DateTime::from_str(t);
+            let _ = DateTime::parse_from_rfc3339_with_timezone(t, "New_York");
+            let _ = Value::make_datetime_from_iso(t);
+        }) {
+            Ok(()) => Ok(()),
+            Err(p) => Err(("rfc3339-panic:malformed".into(), p)),
+        };
+    }
+    if let Some(z) = case["bad_zone"].as_str() {
+        return match guarded(|| DateTime::parse_from_rfc3339_with_timezone("2021-07-01T10:00:00Z", z).map(|d| dt_from_lib(&d))) {
+            Err(p) => Err(("with-timezone-panic:bad-zone".into(), p)),
+            Ok(Ok(got)) if got.secs != 1_625_133_600 => Err(("with-timezone:instant:bad-zone".into(), format!("instant {}", got.secs))),
+            _ => Ok(()),
+        };
+    }
     if let Some(t) = case["rfc3339"].as_str() {
         let off = rfc3339_instant(t).map(|x| x.2).unwrap_or(0);
         return check_rfc3339(t).map_err(|(s, d)| (format!("{s}:{}", offset_class(off)), d));
